@@ -92,17 +92,20 @@ Proof. exact enabled_false_silences. Qed.
 Print Assumptions C05_enabled_false_silences.
 
 (* 4. monotonicity: changing one limit in its permissive direction never adds a violation *)
-Theorem C05_limit_monotone : forall opts gs probes r1 r2 fname ms o z1 z2 up n1 n2,
+Theorem C05_limit_monotone : forall opts probes r1 r2 fname ms o z1 z2 up,
   (forall o', o' <> o -> r1 o' = r2 o') -> has_opt opts o = true ->
   o <> "enabled" -> o <> "ignore" ->
   as_int (r1 o) (default_of opts o) = Some z1 -> as_int (r2 o) (default_of opts o) = Some z2 ->
   Forall (fun p => mentions p o = false \/ limit_dir p o = Some up) probes ->
   (if up then (z1 <= z2)%Z else (z2 <= z1)%Z) ->
-  unit_outcome opts gs probes false r1 fname ms = Ran n1 ->
-  unit_outcome opts gs probes false r2 fname ms = Ran n2 ->
-  n2 <= n1.
+  unit_body opts probes r2 fname ms <= unit_body opts probes r1 fname ms.
 Proof. exact limit_monotone. Qed.
 Print Assumptions C05_limit_monotone.
+
+Theorem C05_ran_is_body : forall opts gs probes res top fname ms n,
+  unit_outcome opts gs probes false false false true res top fname ms = Ran n -> n = unit_body opts probes res fname ms.
+Proof. exact spec_ran_is_body. Qed.
+Print Assumptions C05_ran_is_body.
 
 Theorem C05_allowed_list_monotone : forall opts res1 res2 ms m o,
   (forall x, zmem x (as_ints (res1 o) (default_of opts o)) = true -> zmem x (as_ints (res2 o) (default_of opts o)) = true) ->
@@ -116,11 +119,8 @@ Theorem C05_invalid_value_exit_2 : forall q c k raw o cm b,
   spec_selected c = LDoc k raw ->
   existsb (String.eqb (c_fname c)) (str_list (get "ignore" raw)) = false ->
   In (o, cm, b) (doc_guards (c_unit c)) ->
-  match spec_res c (section_of (c_unit c) raw) o with
-  | Some (VInt z) => cmp_Z cm z b = true
-  | Some _ => True
-  | None => False
-  end ->
+  bad_value (spec_res c (section_of (c_unit c) raw) o) cm b
+  \/ bad_value (spec_res_top c (section_of (c_unit c) raw) o) cm b ->
   run q c = Exit2.
 Proof. exact invalid_value_exit_2. Qed.
 Print Assumptions C05_invalid_value_exit_2.
@@ -154,7 +154,9 @@ Theorem C05_actual_partial : forall c,
   unit_clean (c_unit c) = true -> case_good c = true -> lang_good c = true ->
   p_json (c_proj c) = Absent -> p_pyproject (c_proj c) = Absent -> p_dash (c_proj c) = None -> c_overrides c = [] ->
   (forall k raw, spec_selected c = LDoc k raw ->
-     typed_guards (doc_opts (c_unit c)) (doc_guards (c_unit c)) (spec_res c (section_of (c_unit c) raw))) ->
+     no_type_error (doc_opts (c_unit c)) (doc_guards (c_unit c)) (spec_res c (section_of (c_unit c) raw))) ->
+  (forall k raw, spec_selected c = LDoc k raw ->
+     guard_status (doc_opts (c_unit c)) (doc_guards (c_unit c)) (spec_res_top c (section_of (c_unit c) raw)) = StOk) ->
   run config_actual c = spec c.
 Proof. exact actual_partial. Qed.
 Print Assumptions C05_actual_partial.
@@ -165,15 +167,15 @@ Print Assumptions C05_actual_partial.
 Theorem C05_generated_layer :
   discovery_order = [".thailint.yaml"; ".thailint.json"] /\ pyproject_name = "pyproject.toml"
   /\ pyproject_table = ["tool"; "thailint"] /\ (norm_from = "-" /\ norm_to = "_")
-  /\ (file_parser_normalises = true /\ pyproject_parser_normalises = true)
+  /\ (file_parser_normalises = true /\ pyproject_parser_normalises = true) /\ retry_exceptions = ["TypeError"]
   /\ valid_suffixes = doc_valid_suffixes /\ map row_proj cli_overrides = doc_cli_opts
   /\ (value_error_reraised = true /\ error_exit_code = 2 /\ exit_with_violations = 1 /\ exit_clean = 0)
   /\ (forall u, In u units -> with_enabled (gen_opts u) = doc_opts u)
   /\ (forall u, In u units -> guards_of guards u = doc_guards u)
   /\ (forall u, In u units -> gen_lang_opts u ++ doc_extra_lang_opts u = doc_lang_opts u).
 Proof.
-  exact (conj F_discovery (conj F_pyname (conj F_pytable (conj F_norm (conj F_parsers (conj F_suffixes (conj F_cli (conj F_errors
-        (conj F_opts (conj F_guards F_lang)))))))))).
+  exact (conj F_discovery (conj F_pyname (conj F_pytable (conj F_norm (conj F_parsers (conj F_retry (conj F_suffixes (conj F_cli (conj F_errors
+        (conj F_opts (conj F_guards F_lang))))))))))).
 Qed.
 Print Assumptions C05_generated_layer.
 
